@@ -217,7 +217,8 @@ def render(rng, t, maxp, out):
         if sub[0] in ("num", "infix", "prefix", "atom"):
             sub = ("paren", sub)
         render(rng, sub, ap, out)
-        if len(out) > mark and out[mark][0][0] in SYMCH:
+        # `-(` would start a compound term (arguments of priority 999), `-\\+` one symbol token
+        if len(out) > mark and (out[mark][0][0] in SYMCH or out[mark][0][0] == "("):
             out.insert(mark, [" ", "l"])
     else:
         raise ValueError(k)
